@@ -26,6 +26,7 @@ def _load_tsv(name):
 
 _MAY_PANIC = [(re.compile('^(?:%s)$' % r[0]), r[1], r[2]) for r in _load_tsv('may_panic.tsv') if r[1] != 'decimal-ok']
 TOTAL_CTORS = {r[0]: r[1] for r in _load_tsv('total_ctors.tsv')}
+_VETTED = [re.compile('^(?:%s)$' % r[0]) for r in _load_tsv('vetted_externals.tsv')]
 
 DECIMAL = 'rust_decimal::Decimal'
 UB_CHECK_ASSERTS = {'NullPointerDereference', 'MisalignedPointerDereference', 'InvalidEnumConstruction'}
@@ -52,6 +53,11 @@ def classify_call(c):
         return 'decimal-op', 'rust_decimal operator traits panic on overflow / zero divisor'
     if _SUMPROD.match(c.callee) and any(DECIMAL in a for a in args):
         return 'decimal-op', 'rust_decimal Sum/Product panic on overflow'
+    # third-party code nobody vetted: fail closed
+    cr = c.crate
+    if cr and cr not in ('std', 'core', 'alloc') and not c.fn.get('local') and not (c.fn.get('resolved') or {}).get('local'):
+        if not any(rx.match(n) for n in names for rx in _VETTED):
+            return 'unvetted-external', 'third-party callee (crate %s) that is neither vetted total (spec/vetted_externals.tsv) nor a listed panic site: whether it can panic is unknown' % cr
     return None
 
 
